@@ -101,6 +101,14 @@ theorem c04_install_mono (s : Sys) (op : Op) (i : Nat) (b : AuthId)
       · exact ⟨b, keep _ _, AuthGe.refl b⟩
       · refine ⟨b, ?_, AuthGe.refl b⟩
         rw [ownerAuth_congr i (chanOf_setNode_other hn _ (fun e => hr e.symm))]; exact keep _ _
+  | repair l f nf =>
+    simp only [step]
+    split
+    · split
+      · exact ⟨b, keep _ _, AuthGe.refl b⟩
+      · refine ⟨b, ?_, AuthGe.refl b⟩
+        rw [ownerAuth_congr i ((repairFollower_frame trivRel _ l f nf).1.chanOf i)]; exact keep _ _
+    · exact ⟨b, keep _ _, AuthGe.refl b⟩
   | install j a ps acks =>
     simp only [step]
     have inst : ∀ ow, ∃ b', ownerAuth (install ⟨n, q, cap, true, nodes, ow⟩ j a ps acks).1 i = some b' ∧ AuthGe b' b := by
